@@ -19,7 +19,7 @@ RULE = ("Hypothesis-generated documents (seeded) mixing plaintext scalars "
         "are aliased elsewhere, anchored secrets aliased under keys and "
         "inside lists, plain / double-quoted / folded / literal styles "
         "(folded and literal values carry line breaks and indentation "
-        "before and inside the marker), plaintexts with leading blanks, "
+        "before and inside the marker; tab / CR LF before the marker), plaintexts with leading blanks, "
         "inner newlines (LF, CR LF and lone CR), punctuation; files without any secret; runs over "
         "one or two files that reuse anchor names - produced with a "
         "stand-in eyaml executable implementing a keyed reversible cipher "
@@ -75,6 +75,11 @@ def emit_secret(cipher, style, indent, anchor):
         return anc + cipher
     if style == "dquote":
         return anc + json.dumps(cipher)
+    if style == "dquote-tab":
+        # other white-space than blanks and line feeds before the marker
+        return anc + json.dumps("\t" + cipher)
+    if style == "dquote-crlf":
+        return anc + json.dumps("\r\n " + cipher)
     chunks = [cipher[i:i + 24] for i in range(0, len(cipher), 24)]
     if style == "folded":
         return anc + ">\n" + "\n".join(pad + c for c in chunks)
@@ -120,7 +125,8 @@ def build(struct):
 def st_struct():
     from hypothesis import strategies as st
     styles = st.sampled_from(["plain", "plain", "dquote", "folded",
-                              "literal"])
+                              "literal", "plain", "dquote", "folded",
+                              "literal", "dquote-tab", "dquote-crlf"])
     pidx = st.integers(0, len(PLAINTEXTS) - 1)
     plain = st.sampled_from([1, "text", True, None, "ENCODED", 2.5, "x y"]
                             ).map(lambda v: ("plain", v))
